@@ -137,7 +137,7 @@ func (w *World) singleSiteCI(fn *ssa.Function) ssa.CallInstruction {
 				}
 				// ... or handed to (*sync.Once).Do, which runs it on the spot (the first time)
 				if ci, ok := (*refs)[0].(*ssa.Call); ok {
-					if cal := ci.Call.StaticCallee(); cal != nil && syncCallback(cal) && len(fn.Params) == 0 {
+					if cal := ci.Call.StaticCallee(); cal != nil && len(fn.Params) == 0 && w.runsArgSync(ci, mcs[0]) {
 						s.single[fn] = ci
 						return ci
 					}
@@ -321,17 +321,92 @@ func (w *World) syncCallbackBody(c ssa.CallInstruction) *ssa.Function {
 		return nil
 	}
 	cal := call.Call.StaticCallee()
-	if cal == nil || !syncCallback(cal) {
+	if cal == nil {
 		return nil
 	}
 	for _, a := range call.Call.Args {
-		if mc, isMC := a.(*ssa.MakeClosure); isMC {
+		if mc, isMC := a.(*ssa.MakeClosure); isMC && w.runsArgSync(call, mc) {
 			if body := w.closureBody(mc); body != nil && w.singleSiteCI(body) == c {
 				return body
 			}
 		}
 	}
 	return nil
+}
+
+// runsArgSync: the call hands function value arg to a callee that runs it synchronously, on
+// the calling goroutine, before returning: (*sync.Once).Do, or a module function whose
+// corresponding parameter is used only as the callee of plain calls (a combinator such as
+// retry(fn) / withLock(fn)).
+func (w *World) runsArgSync(call *ssa.Call, arg ssa.Value) bool {
+	cal := call.Call.StaticCallee()
+	if cal == nil {
+		return false
+	}
+	if syncCallback(cal) {
+		return true
+	}
+	for i, a := range call.Call.Args {
+		if a == arg && w.invokesParam(cal, i) {
+			return true
+		}
+	}
+	return false
+}
+
+// invokesParam: module function h calls its i-th parameter (a function value), and does
+// nothing else with it (no store, no go, not passed on).
+func (w *World) invokesParam(h *ssa.Function, i int) bool {
+	if h == nil || !w.IsMod[h] || len(h.Blocks) == 0 || i >= len(h.Params) {
+		return false
+	}
+	p := h.Params[i]
+	if _, isSig := p.Type().Underlying().(*types.Signature); !isSig || p.Referrers() == nil {
+		return false
+	}
+	n := 0
+	for _, r := range *p.Referrers() {
+		switch x := r.(type) {
+		case *ssa.Call:
+			if x.Call.Value != ssa.Value(p) {
+				return false
+			}
+			for _, a := range x.Call.Args {
+				if a == ssa.Value(p) {
+					return false
+				}
+			}
+			n++
+		case *ssa.DebugRef:
+		default:
+			return false
+		}
+	}
+	return n > 0
+}
+
+// calledFns: the module functions a call runs before it returns: its static callee and, for
+// a synchronous combinator, the function values handed to it (literal or method value).
+func (w *World) calledFns(call *ssa.Call) []*ssa.Function {
+	var out []*ssa.Function
+	if h := call.Call.StaticCallee(); h != nil {
+		out = append(out, h)
+	}
+	for _, a := range call.Call.Args {
+		switch x := a.(type) {
+		case *ssa.MakeClosure:
+			if w.runsArgSync(call, x) {
+				if b := w.closureBody(x); b != nil {
+					out = append(out, b)
+				}
+			}
+		case *ssa.Function:
+			if w.runsArgSync(call, x) {
+				out = append(out, x)
+			}
+		}
+	}
+	return out
 }
 
 // translate expresses value v of helper h (an invocation made at call site hc) in the
@@ -1616,4 +1691,85 @@ func (w *World) liftCalls(target *ssa.Function, stop func(*ssa.Function) bool, d
 		lift(cs, cs.Common().Args, depth)
 	}
 	return out
+}
+
+// deepLeaves: the values v can take, with phis opened (feasible edges only), results of
+// module helpers replaced by what the helper returns (recursively, not through functions
+// accepted by stop), and — inside such a helper — the results of calls of one of its function
+// parameters replaced by what the function value handed in at that call site returns
+// (retry(func() error { return c.bind(b) }) yields the bind(b) call). Leaves are real
+// instructions of the function they occur in (not translated); complete reports whether
+// every leaf could be followed to its end.
+func (w *World) deepLeaves(v ssa.Value, stop func(*ssa.Function) bool, depth int) (leaves []ssa.Value, complete bool) {
+	type frame struct {
+		h    *ssa.Function
+		site *ssa.Call
+	}
+	complete = true
+	seen := map[ssa.Value]bool{}
+	var walk func(v ssa.Value, ctx []frame, d int)
+	resultsOf := func(h *ssa.Function, idx int, ctx []frame, d int) {
+		for _, r := range returnsOf(h) {
+			if idx >= len(r.Results) {
+				complete = false
+				continue
+			}
+			walk(r.Results[idx], ctx, d)
+		}
+	}
+	walk = func(v ssa.Value, ctx []frame, d int) {
+		for _, l := range liveLeaves(w.resolveLoad(v)) {
+			l = w.resolveLoad(l)
+			if _, isPhi := l.(*ssa.Phi); isPhi {
+				if !seen[l] {
+					seen[l] = true
+					walk(l, ctx, d)
+				}
+				continue
+			}
+			call, idx := callOf(l)
+			if call == nil || d <= 0 {
+				leaves = append(leaves, l)
+				continue
+			}
+			if idx < 0 {
+				idx = 0
+			}
+			if h := call.Call.StaticCallee(); h != nil {
+				if !w.IsMod[h] || len(h.Blocks) == 0 || stop(h) || seen[call] {
+					leaves = append(leaves, l)
+					continue
+				}
+				seen[call] = true
+				resultsOf(h, idx, append(append([]frame{}, ctx...), frame{h, call}), d-1)
+				continue
+			}
+			// a call of a function parameter of the enclosing helper
+			if p, isP := call.Call.Value.(*ssa.Parameter); isP && len(ctx) > 0 && ctx[len(ctx)-1].h == p.Parent() && !call.Call.IsInvoke() {
+				top := ctx[len(ctx)-1]
+				j := paramIndex(p)
+				if j >= 0 && j < len(top.site.Call.Args) {
+					var body *ssa.Function
+					switch a := top.site.Call.Args[j].(type) {
+					case *ssa.MakeClosure:
+						body = w.closureBody(a)
+					case *ssa.Function:
+						body = a
+					}
+					if body != nil && len(body.Blocks) > 0 && w.IsMod[body] {
+						if stop(body) {
+							// the function value IS the stop function (method value): the leaf is its call
+							leaves = append(leaves, l)
+							continue
+						}
+						resultsOf(body, idx, ctx[:len(ctx)-1], d-1)
+						continue
+					}
+				}
+			}
+			leaves = append(leaves, l)
+		}
+	}
+	walk(v, nil, depth)
+	return leaves, complete
 }
